@@ -9,7 +9,7 @@ import time
 
 VERIF = os.path.dirname(os.path.dirname(os.path.dirname(os.path.abspath(__file__))))
 REPO = os.environ.get("VERIF_REPO", "/repo")
-BUILD_ROOT = os.path.join(VERIF, ".build")
+BUILD_ROOT = os.environ.get("VERIF_BUILD_ROOT", os.path.join(VERIF, ".build"))
 HARNESS_SRC = os.path.join(VERIF, "harness")
 NCPU = os.cpu_count() or 4
 
@@ -85,8 +85,20 @@ def flavour_flags(flavour):
     return cc, cflags, ldflags
 
 
+_memo_lock = __import__("threading").RLock()
+_ensured = {}
+_harness_memo = {}
+
+
 def ensure(flavour, quiet=True):
-    """Bring the flavour up to date with /repo's working tree.  Returns build dir."""
+    """Bring the flavour up to date with /repo's working tree (once per process).  Returns build dir."""
+    with _memo_lock:
+        if flavour not in _ensured:
+            _ensured[flavour] = _ensure(flavour, quiet)
+        return _ensured[flavour]
+
+
+def _ensure(flavour, quiet=True):
     cc, cxx, cflags, ldflags, extra = FLAVOURS[flavour]
     d = bdir(flavour)
     with _Lock(os.path.join(BUILD_ROOT, flavour + ".lock")):
@@ -174,6 +186,16 @@ INCLUDES = ["Source/API", "Source/Lib/Common/Codec", "Source/Lib/Common/C_DEFAUL
 
 def harness(flavour, name, sources=None, link="so", libs=("enc",), extra_cflags="", extra_ldflags="",
             internal_includes=False, deps=()):
+    key = (flavour, name, tuple(sources or ()), link, tuple(libs), extra_cflags, extra_ldflags)
+    with _memo_lock:
+        if key not in _harness_memo:
+            _harness_memo[key] = _harness(flavour, name, sources, link, libs, extra_cflags, extra_ldflags,
+                                          internal_includes, deps)
+        return _harness_memo[key]
+
+
+def _harness(flavour, name, sources=None, link="so", libs=("enc",), extra_cflags="", extra_ldflags="",
+             internal_includes=False, deps=()):
     """Compile /verif/harness/<sources> for a flavour.
     link='so'  -> against the shared libraries (public API only)
     link='wb'  -> against the white-box archives (internal symbols reachable)
